@@ -517,8 +517,8 @@ Definition entry_fragment (kp : list key) (v : value) : bytes :=
 (* one [header] / [[header]] line; `first` = no table has been printed yet (default decor) *)
 Definition header_text (hp : list key) (d : decor) (arr first : bool) : bytes :=
   let default := if first then ([], snd DEFAULT_TABLE_DECOR) else DEFAULT_TABLE_DECOR in
-  decor_prefix d (fst default) ++ (if arr then [x5b; x5b] else [x5b])
-  ++ encode_key_path hp DEFAULT_KEY_PATH_DECOR ++ (if arr then [x5d; x5d] else [x5d])
+  decor_prefix d (fst default) ++ encode_key_comments hp ++ (if arr then [x5b; x5b] else [x5b])
+  ++ encode_header_key_path hp DEFAULT_KEY_PATH_DECOR ++ (if arr then [x5d; x5d] else [x5d])
   ++ decor_suffix d (snd default) ++ [x0a].
 
 (* the printed bytes of a fragment *)
